@@ -179,6 +179,9 @@ func (aquahash *Aquahash) verifyHeaderWorker(chain consensus.ChainReader, header
 			grandparent = chain.GetHeader(parent.ParentHash, headers[0].Number.Uint64()-2)
 		}
 	} else if index == 1 {
+		if headers[0].Hash() != headers[1].ParentHash {
+			return consensus.ErrUnknownAncestor
+		}
 		parent = headers[0]
 		if parent.Number.Uint64() > 1 {
 			grandparent = chain.GetHeader(parent.ParentHash, parent.Number.Uint64()-1)
